@@ -98,6 +98,22 @@ def main():
                 r = {"err": "unknown kind"}
         except BaseException as e:  # noqa
             r = {"err": type(e).__name__ + ": " + str(e)[:300], "tb": traceback.format_exc()[-600:]}
+        # which side of the branches of the reduction code this input falls on (census only)
+        try:
+            from piquasso._math.hafnian.utils import match_occupation_numbers as _mo
+            occ2 = np.array(c["occ"], dtype=np.int64)
+            A2 = cplx(c["M"], np.complex128)
+            if occ2.sum() % 2 == 1:
+                occ2 = np.concatenate([occ2, [1]]) if c["kind"].startswith("haf") else np.concatenate([[1], occ2])
+                A2 = np.pad(A2, ((0, 1), (0, 1)) if c["kind"].startswith("haf") else ((1, 0), (1, 0)))
+            if occ2.sum() >= 2:
+                er, ei = _mo(occ2)
+                red = A2[np.ix_(ei, ei)]
+                r["n_edges"] = int(len(er))
+                r["sum_reps"] = int(np.sum(er))
+                r["red_norm2"] = float(np.sum(np.abs(red) ** 2))
+        except BaseException:  # noqa
+            pass
         out.append(r)
     res["haf"] = out
 
